@@ -9,7 +9,7 @@ from ..cfg import build_cfg, calls_in
 from ..core import Ctx, property_info, rule, share
 from ..exc import MayRaise
 from ..model import AnalysisError, ClassInfo, FuncInfo, Module, dotted_name, norm_text, walk_no_nested
-from ..q import return_values, stores, unparse
+from ..q import leaves_at, names_from_calls, return_values, stores, unparse
 
 CONV = "xsdata.formats.converter"
 ENUMS = "xsdata.models.enums"
@@ -155,20 +155,28 @@ def strict_test_coverage(ctx: Ctx) -> None:
     covered: set[str] = set()
     g = build_cfg(t.node)
     strict_tests = [n for n in g.nodes if n.kind == "test" and unparse(n.ast) == "strict"]
+    decoded = names_from_calls(t.node, ("deserialize",))
     for n in g.nodes:
-        if n.kind == "test" and isinstance(n.ast, ast.Call) and unparse(n.ast.func) == "isinstance" and unparse(n.ast.args[0]) == "decoded" \
+        if n.kind == "test" and isinstance(n.ast, ast.Call) and unparse(n.ast.func) == "isinstance" and isinstance(n.ast.args[0], ast.Name) and n.ast.args[0].id in decoded \
                 and isinstance(n.ast.args[1], ast.Tuple):
             covered = {unparse(e) for e in n.ast.args[1].elts}
     need = {"int", "float", "Decimal", "XmlPeriod"}
     for tp in sorted(need):
         ctx.ob(f"strict test re-serialises {tp}", tp in covered, at=t, construct=f"strict {tp}", msg=f"'{tp}' values with non-canonical spelling (leading zeros, +, trailing zeros) would be inferred as {tp} and change on output")
-    rets = [n for n in g.returns() if isinstance(n.ast.value, ast.Compare)]
-    ok = any(unparse(r.ast.value).replace(" ", "") == "value.strip()==encoded" for r in rets)
+    rets = [n for n in g.returns() if isinstance(n.ast.value, ast.Compare) and len(n.ast.value.ops) == 1 and isinstance(n.ast.value.ops[0], ast.Eq)]
+    ok = False
+    kw_ok = False
+    for r in rets:
+        sides = [r.ast.value.left, r.ast.value.comparators[0]]
+        stripped = [x for x in sides if unparse(x).replace(" ", "") == "value.strip()"]
+        other = [x for x in sides if x not in stripped]
+        if len(stripped) == 1 and len(other) == 1:
+            leaves = leaves_at(t, r, other[0])
+            if leaves and all(isinstance(x, ast.Call) and unparse(x.func) == "self.serialize" and x.args and isinstance(x.args[0], ast.Name) and x.args[0].id in decoded for x in leaves):
+                ok = True
+                kw_ok = all(any(k.arg is None for k in x.keywords) for x in leaves)
     ctx.ob("strict comparison is stripped input == re-serialised value", ok, at=t, construct="strict compare", msg="strict comparison changed")
-    enc = [st for st, tgt, v in stores(t.node) if unparse(tgt) == "encoded"]
-    ok = bool(enc) and all(unparse(v.func) == "self.serialize" and unparse(v.args[0]) == "decoded" and any(k.arg is None for k in v.keywords) for _, _, v in
-                           [(s_, t_, v_) for s_, t_, v_ in stores(t.node) if unparse(t_) == "encoded"])
-    ctx.ob("strict re-serialisation passes the same kwargs as the deserialisation", ok, at=t, construct="strict kwargs", msg="format/ns_map not forwarded to serialize")
+    ctx.ob("strict re-serialisation passes the same kwargs as the deserialisation", kw_ok, at=t, construct="strict kwargs", msg="format/ns_map not forwarded to serialize")
     ctx.ob("non-str input is never valid", any(n.kind == "test" and unparse(n.ast).replace(" ", "") == "isinstance(value,str)" for n in g.nodes), at=t, construct="str only", msg="non-str accepted")
 
 
